@@ -11,6 +11,7 @@
   is at most 2^26 (the model's read cap); bytes are `< 256`.
 -/
 import PdsVerif.Lemmas.SphereHeader
+import PdsVerif.Lemmas.SphereOld
 
 namespace PdsVerif.C12
 open PdsVerif.Model.Sphere PdsVerif.Gen.Sphere
